@@ -351,6 +351,14 @@ fn trace_run<T: Sample>(
             if kind == 0 {
                 drop(w);
                 ev = json!({"op": "dropw", "st": real.st()});
+            } else if kind == 2 && wl < cap {
+                // fill_from_slice with more samples than the window holds: must be refused
+                // (panic) without touching anything outside the window
+                let k = (wl + 1 + rng.below(3)).min(cap);
+                let produced = real.produced;
+                let vals: Vec<T> = (0..k).map(|j| real.val(produced + 900_000 + j as u64)).collect();
+                let ok = catch(move || w.fill_from_slice(&vals)).is_ok();
+                ev = json!({"op": "fill_refused", "k": k, "accepted": ok, "st": real.st()});
             } else if kind == 1 && wl < cap + 1 {
                 // oversized commit: must be refused.
                 let (_, _, used, _, _) = real.rs.verif_state();
@@ -384,8 +392,14 @@ fn trace_run<T: Sample>(
                     }
                 }
                 let tags: Vec<Tag> = tg.iter().map(|(p, o)| tag_for(produced + *p as u64 + 1, *o, *p)).collect();
+                let how = rng.below(4);
                 let r = catch(move || {
-                    w.slice()[..k].copy_from_slice(&vals);
+                    // the three ways a block writes into its window
+                    match how {
+                        0 => w.fill_from_slice(&vals),
+                        1 => w.fill_from_iter(vals.iter().copied()),
+                        _ => w.slice()[..k].copy_from_slice(&vals),
+                    }
                     w.produce(n, &tags);
                 });
                 if n == 0 {
@@ -450,10 +464,15 @@ fn acq_r<T: Sample>(real: &mut Real<T>) -> Result<Value, String> {
         Ok(Ok((r, tags))) => {
             let (s, e) = r.verif_range();
             let len = r.len();
-            let runs = match catch(|| real.runs(r.slice())) {
+            // the window is read through slice() or through iter(), alternately; is_empty() must agree with len()
+            let via_iter = real.produced % 2 == 1;
+            let runs = match catch(|| if via_iter { real.runs(&r.iter().copied().collect::<Vec<T>>()) } else { real.runs(r.slice()) }) {
                 Ok(x) => x,
                 Err(p) => return Ok(json!({"op": "acqr", "err": p, "panic": true})),
             };
+            if r.is_empty() != (len == 0) {
+                return Ok(json!({"op": "acqr", "err": "is_empty() disagrees with len()", "panic": true}));
+            }
             let tg: Vec<Value> = tags.iter().map(|t| json!([t.pos(), tag_id(t)])).collect();
             real.r = Some((r, tags));
             Ok(json!({"op": "acqr", "start": s, "len": e - s, "rlen": len, "runs": runs, "tags": tg, "st": real.st()}))
